@@ -26,7 +26,7 @@ func (r *rs) iocopy() {
 		return
 	}
 	info := fn.Pkg.TypesInfo
-	g := cfgq.Of(c.Program, fn)
+	g := flow.GraphOf(c.Program, fn)
 	_, rd := param(fn, 0)
 	_, wr := param(fn, 1)
 	pid, p := param(fn, 2)
@@ -214,9 +214,11 @@ func (r *rs) boundedCaller(key string, fn *core.Fn, g *cfgq.Graph, root ast.Node
 		}
 	}
 	// peel looks through conversions and single-definition locals
+	var stages []ast.Expr // the max argument and what it stands for, local by local
 	peel := func(e ast.Expr) ast.Expr {
 		for i := 0; i < 4; i++ {
 			e = unconv(info, e)
+			stages = append(stages, e)
 			r := flow.Resolve(info, root, e)
 			if r == e {
 				break
@@ -248,6 +250,21 @@ func (r *rs) boundedCaller(key string, fn *core.Fn, g *cfgq.Graph, root ast.Node
 		}
 		return true
 	})
+	// a single-assignment local that carries the count (`remaining := total - done.Get()`) is a name of the
+	// same quantity: tests on it are tests on the count
+	for _, st := range stages {
+		if x, isVar := flow.Obj(info, st).(*types.Var); isVar && flow.Assignments(info, root, x) == 1 {
+			f := lin.Of(info, st)
+			dup := false
+			for _, g := range forms {
+				dup = dup || g.Equal(f)
+			}
+			if !dup {
+				forms = append(forms, f)
+				tracked = append(tracked, x)
+			}
+		}
+	}
 	// a max variable that is recomputed as total - done.Get() stands for that form as well
 	if x := flow.Obj(info, maxArg); x != nil {
 		defs, _ := defsOf(info, root, x)
@@ -348,8 +365,41 @@ func (r *rs) boundedCaller(key string, fn *core.Fn, g *cfgq.Graph, root ast.Node
 	// the count starts at the announced size: M at loop entry
 	r.startsAtForm(key, fn.Decl.Body, forms, counter, sizeParam, info, call.Pos())
 	cp, inGraph := flow.PointOf(g, call)
-	if loop == nil || !inGraph {
-		c.Undecidedf("R3.bounded", key+"/until-exhausted", call.Pos(), "the copy is not inside a for loop of the analysed body")
+	// the loop, on the graph: the nodes that lie on a cycle through the copy - whether a for statement, a
+	// `goto` back to a label or any other spelling produced it
+	inLoop := map[ast.Node]bool{}
+	loopPos := call.Pos()
+	if inGraph {
+		cn := cp.Node()
+		for _, b := range g.CFG.Blocks {
+			for i, m := range b.Nodes {
+				if m == cn {
+					continue
+				}
+				mp := cfgq.Point{B: b, I: i}
+				if g.Path(cfgq.Query{From: cp, After: true, Target: isNode(m)}) != nil && g.Path(cfgq.Query{From: mp, After: true, Target: isNode(cn)}) != nil {
+					inLoop[m] = true
+				}
+			}
+		}
+		if g.Path(cfgq.Query{From: cp, After: true, Target: isNode(cn)}) != nil {
+			inLoop[cn] = true
+		}
+	}
+	if loop != nil {
+		// a for statement around the copy: the innermost one is the loop (it may itself sit in an outer loop)
+		loopPos = loop.Pos()
+		inLoop = map[ast.Node]bool{}
+		for _, b := range g.CFG.Blocks {
+			for _, m := range b.Nodes {
+				if flow.Contains(loop, m) {
+					inLoop[m] = true
+				}
+			}
+		}
+	}
+	if !inGraph || !inLoop[cp.Node()] {
+		c.Undecidedf("R3.bounded", key+"/until-exhausted", call.Pos(), "the copy is not inside a loop of the analysed body")
 		return
 	}
 	detail := fmt.Sprintf("a chunk is copied only while %s, and the loop is left only once nothing remains: stopping earlier leaves RDB bytes in front of the command stream (or truncates the dump)", what)
@@ -359,7 +409,7 @@ func (r *rs) boundedCaller(key string, fn *core.Fn, g *cfgq.Graph, root ast.Node
 	// counters that is not understood is undecided, an exit through understood tests only is a violation
 	leave := func(avoid func(*cfg.Block, int) bool) []string {
 		return g.Path(cfgq.Query{From: cp, After: true, AvoidEdge: avoid, TargetExit: cfgq.NormalExit,
-			Target: func(m ast.Node) bool { return !flow.Contains(loop, m) }})
+			Target: func(m ast.Node) bool { return !inLoop[m] }})
 	}
 	early := leave(func(b *cfg.Block, s int) bool {
 		for _, f := range flow.EdgeFacts(g, b, s) {
@@ -372,11 +422,11 @@ func (r *rs) boundedCaller(key string, fn *core.Fn, g *cfgq.Graph, root ast.Node
 	maybe := leave(flow.Establishes(g, stop))
 	switch {
 	case vOn == flow.Violated || early != nil:
-		c.Check("R3.bounded", key+"/until-exhausted", loop.Pos(), false, detail, append(w1, early...)...)
+		c.Check("R3.bounded", key+"/until-exhausted", loopPos, false, detail, append(w1, early...)...)
 	case vOn == flow.Unknown || maybe != nil:
-		c.Undecidedf("R3.bounded", key+"/until-exhausted", loop.Pos(), "the loop tests its counters in a form that is not understood; required: %s", detail)
+		c.Undecidedf("R3.bounded", key+"/until-exhausted", loopPos, "the loop tests its counters in a form that is not understood; required: %s", detail)
 	default:
-		c.Check("R3.bounded", key+"/until-exhausted", loop.Pos(), true, detail)
+		c.Check("R3.bounded", key+"/until-exhausted", loopPos, true, detail)
 	}
 }
 
@@ -522,7 +572,7 @@ func (r *rs) pipeCopy() {
 		return
 	}
 	info := fn.Pkg.TypesInfo
-	g := cfgq.Of(c.Program, fn)
+	g := flow.GraphOf(c.Program, fn)
 	_, br := param(fn, 1)
 	_, dst := param(fn, 3)
 	reads := flow.FindCalls(fn.Decl.Body, func(call *ast.CallExpr) bool {
@@ -605,12 +655,19 @@ func (r *rs) pipeCopy() {
 				}
 				set(st, "wrote", true)
 			default:
-				if pat.Expr("_c.Add(_v)").Match(info, call, nil) == nil || !flag(st, "read") {
+				// an increment of a counter, however it is spelled: c.Add(v), c.Set(c.Get() + v)
+				var amount ast.Expr
+				if b := pat.Expr("_c.Add(_v)").Match(info, call, nil); b != nil {
+					amount = b["_v"].(ast.Expr)
+				} else if b := pat.Expr("_c.Set(_c.Get() + _v)").Match(info, call, nil); b != nil {
+					amount = b["_v"].(ast.Expr)
+				}
+				if amount == nil || !flag(st, "read") {
 					continue
 				}
-				am := w.Eval(call.Args[0], st)
+				am := w.Eval(amount, st)
 				lenOfWritten := false
-				if lc, ok := unconv(info, flow.Resolve(info, fn.Decl.Body, unconv(info, call.Args[0]))).(*ast.CallExpr); ok && flow.IsBuiltin(info, lc, "len") && len(lc.Args) == 1 {
+				if lc, ok := unconv(info, flow.Resolve(info, fn.Decl.Body, unconv(info, amount))).(*ast.CallExpr); ok && flow.IsBuiltin(info, lc, "len") && len(lc.Args) == 1 {
 					e := ast.Unparen(lc.Args[0])
 					lenOfWritten = pat.Same(info, e, ast.Unparen(wr.Args[0])) || prefixOf(info, ast.Unparen(flow.Resolve(info, fn.Decl.Body, e)), flow.IsObj(info, buf), flow.IsObj(info, n))
 				}
@@ -721,7 +778,7 @@ func (r *rs) dumpSide() {
 		c.Undecidedf("R3.bounded", "dumpRDBFile/copy", rdbFile.Decl.Pos(), "cannot find the goroutine that calls Iocopy")
 		return
 	}
-	g := cfgq.OfLit(c.Program, info, lit)
+	g := flow.GraphOfLit(c.Program, info, lit)
 	r.boundedCaller("dumpRDBFile", rdbFile, g, lit, ioc, rparam, sparam)
 	call := callsTo(info, lit, ioc.Obj, false)[0]
 	if !pat.Same(info, call.Args[1], wid) {
